@@ -211,6 +211,72 @@ func (c *Ctx) fieldStoresAreGqlerr(fa *ssa.FieldAddr, depth int, why *[]string) 
 
 // ------------------------------------------------------------------------------------------------
 
+// gqlerrLemma discharges L-gqlerr for the comma-ok assertions to *gqlerror.Error in the two executor
+// functions and prunes the proved-infeasible !ok edges.  With report=false (other properties reusing the
+// pruning) nothing is recorded.
+func (c *Ctx) gqlerrLemma(create, parse *ssa.Function, report bool) {
+	okf := func(k, p, m string) {
+		if report {
+			c.R.OK(k, p, m)
+		}
+	}
+	notef := func(k, p, m string) {
+		if report {
+			c.R.Note(k, p, m)
+		}
+	}
+	badf := func(k, p, m string) {
+		if report {
+			c.R.Bad(k, p, m)
+		}
+	}
+	// ---- lemma first: prune !ok edges of err.(*gqlerror.Error) only where proved
+	if report {
+		c.R.Rule("lemma-gqlerr", "L-gqlerr: the error returned by gqlparser's parser entry point / VariableValues is always nil or a *gqlerror.Error, so the !ok edge of `err.(*gqlerror.Error)` is infeasible (checked on the module-cache source)", 2)
+	}
+	for _, fn := range []*ssa.Function{create, parse} {
+		for _, b := range fn.Blocks {
+			for _, in := range b.Instrs {
+				ta, ok := in.(*ssa.TypeAssert)
+				if !ok || !ta.CommaOk || !isGqlerrPtr(ta.AssertedType) {
+					continue
+				}
+				var srcCall *ssa.Call
+				var idx int
+				for _, d := range an.Defs(ta.X) {
+					if e, ok := d.(*ssa.Extract); ok {
+						if cc, ok := e.Tuple.(*ssa.Call); ok {
+							srcCall, idx = cc, e.Index
+						}
+					}
+				}
+				key := shortFn(fn) + "/assert(*gqlerror.Error)"
+				if srcCall == nil || srcCall.Call.StaticCallee() == nil {
+					// e.g. err = gqlerror.Errorf(...) converted: decided by valueIsGqlerr directly
+					var why []string
+					if c.valueIsGqlerr(ta.X, 0, &why) {
+						c.pruneNotOK(ta)
+						okf(key, c.ipos(ta), "operand is always nil or *gqlerror.Error")
+					} else {
+						notef(key, c.ipos(ta), "operand not proved to be *gqlerror.Error; !ok edge kept: "+strings.Join(why, "; "))
+					}
+					continue
+				}
+				callee := srcCall.Call.StaticCallee()
+				key = shortFn(fn) + "/assert-after:" + callee.Name()
+				var why []string
+				if c.lemmaGqlerr(callee, idx, 0, &why) {
+					c.pruneNotOK(ta)
+					okf(key, c.ipos(ta), "every error "+shortFn(callee)+" returns is nil or *gqlerror.Error; !ok edge pruned")
+				} else {
+					badf(key, c.ipos(ta), shortFn(callee)+" can return an error that is not *gqlerror.Error ("+firstN(why, 4)+"): the request would fall through the gate on the !ok edge")
+				}
+			}
+		}
+	}
+
+}
+
 type gate struct {
 	name     string
 	call     ssa.Instruction // the gate call (or the len() for the operations gate)
@@ -250,48 +316,7 @@ func c03FailClosed(c *Ctx) {
 		return
 	}
 
-	// ---- lemma first: prune !ok edges of err.(*gqlerror.Error) only where proved
-	c.R.Rule("lemma-gqlerr", "L-gqlerr: the error returned by gqlparser's parser entry point / VariableValues is always nil or a *gqlerror.Error, so the !ok edge of `err.(*gqlerror.Error)` is infeasible (checked on the module-cache source)", 2)
-	for _, fn := range []*ssa.Function{create, parse} {
-		for _, b := range fn.Blocks {
-			for _, in := range b.Instrs {
-				ta, ok := in.(*ssa.TypeAssert)
-				if !ok || !ta.CommaOk || !isGqlerrPtr(ta.AssertedType) {
-					continue
-				}
-				var srcCall *ssa.Call
-				var idx int
-				for _, d := range an.Defs(ta.X) {
-					if e, ok := d.(*ssa.Extract); ok {
-						if cc, ok := e.Tuple.(*ssa.Call); ok {
-							srcCall, idx = cc, e.Index
-						}
-					}
-				}
-				key := shortFn(fn) + "/assert(*gqlerror.Error)"
-				if srcCall == nil || srcCall.Call.StaticCallee() == nil {
-					// e.g. err = gqlerror.Errorf(...) converted: decided by valueIsGqlerr directly
-					var why []string
-					if c.valueIsGqlerr(ta.X, 0, &why) {
-						c.pruneNotOK(ta)
-						c.R.OK(key, c.ipos(ta), "operand is always nil or *gqlerror.Error")
-					} else {
-						c.R.Note(key, c.ipos(ta), "operand not proved to be *gqlerror.Error; !ok edge kept: "+strings.Join(why, "; "))
-					}
-					continue
-				}
-				callee := srcCall.Call.StaticCallee()
-				key = shortFn(fn) + "/assert-after:" + callee.Name()
-				var why []string
-				if c.lemmaGqlerr(callee, idx, 0, &why) {
-					c.pruneNotOK(ta)
-					c.R.OK(key, c.ipos(ta), "every error "+shortFn(callee)+" returns is nil or *gqlerror.Error; !ok edge pruned")
-				} else {
-					c.R.Bad(key, c.ipos(ta), shortFn(callee)+" can return an error that is not *gqlerror.Error ("+firstN(why, 4)+"): the request would fall through the gate on the !ok edge")
-				}
-			}
-		}
-	}
+	c.gqlerrLemma(create, parse, true)
 
 	c.R.Rule("fail-closed", "for every gate of CreateOperationContext/parseQuery: its result is tested, and every path from the failure edge ends in a return whose error list is non-empty by construction and never reaches queryCache.Add", 8)
 	for _, fn := range []*ssa.Function{create, parse} {
